@@ -18,7 +18,9 @@ def _lst(s):
 def _kvs(s):
     if s in ("_", "N"):
         return None if s == "N" else {}
-    return {_unhex(e.split(":", 1)[0]): e.split(":", 1)[1] for e in s.split(",")}
+    def key(k):
+        return "(non-string) " + _unhex(k[1:]) if k.startswith("!") else _unhex(k)
+    return {key(e.split(":", 1)[0]): e.split(":", 1)[1] for e in s.split(",")}
 
 
 def decode(p):
@@ -33,11 +35,16 @@ def decode(p):
         events = []
         if f["e"] != "_":
             for e in f["e"].split("|"):
-                n, k, st = e.split(";")
-                events.append({"name": _unhex(n), "kind": ".".join(_lst(k)), "state": _kvs(st)})
+                p = e.split(";")
+                n, k, st = p[0], p[1], p[2]
+                ev = {"name": _unhex(n), "kind": ".".join(_lst(k)), "state": _kvs(st)}
+                if len(p) == 5:
+                    ev["own scope"], ev["added by (event.rule)"] = (None if p[3] == "-" else _kvs(p[3])), p[4]
+                events.append(ev)
         if len(rules) > 6:
             rules = rules[:6] + ["… %d rules in all" % len(rules)]
-        return {"workers": f["w"], "mode": f["m"], "rules": rules, "scope": _kvs(f["s"]), "events": events[:8],
+        extra = {k: f[k] for k in ("l", "z", "f", "g") if k in f}
+        return {"workers": f["w"], "mode": f["m"], **({"level/schedule/failOnFirstError/failing rules": extra} if extra else {}), "rules": rules, "scope": _kvs(f["s"]), "events": events[:8],
                 "values": "Z/A nil, H<class>i<n> hashable, D<class>i<n> list/map, X<n> regex (tables in go/cmd/harness/c01.go)"}
     except Exception:
         return p
